@@ -164,6 +164,18 @@ func (e *depEnv) Fixture(w *World) error {
 // refresh recomputes ReplicaSet and Deployment status from the pods.
 func (e *depEnv) refresh(w *World, d *apps.Deployment, observe bool) error {
 	var total, updated, ready, available int32
+	if observe {
+		// getNewReplicaSet: the deployment controller keeps the NEW ReplicaSet's minReadySeconds equal to the
+		// Deployment's (old ReplicaSets keep their own)
+		for _, rs := range e.rsOf(w, d) {
+			if rsRev(rs) == imageRev(d.Spec.Template.Spec.Containers[0].Image) && rs.Spec.MinReadySeconds != d.Spec.MinReadySeconds {
+				rs.Spec.MinReadySeconds = d.Spec.MinReadySeconds
+				if err := w.S.Put(rs); err != nil {
+					return err
+				}
+			}
+		}
+	}
 	for _, rs := range e.rsOf(w, d) {
 		pods := e.podsOf(w, rs)
 		var r, a int32
